@@ -444,7 +444,9 @@ theorem prefix_ok {b b' : Builder} (p : Str) (u : StrSpan) (sp : Span) (h : Buil
   unfold Builder.prefix at hr
   split at hr
   · cases hr
-  · dsimp only at hr
+  · split at hr
+    · cases hr
+    dsimp only at hr
     split at hr
     · cases hr
     · rename_i eb heb
@@ -527,12 +529,15 @@ theorem step_ok {b b' : Builder} (t : Token) (h : BuilderOk b) (hr : b.step t = 
   | comment t sp =>
     simp only [Builder.step, Builder.comment, Step.ok.injEq] at hr
     subst hr
-    exact builderOk_congr (addLeaf_ok (.comment t.text) h rfl rfl rfl) rfl rfl rfl
+    exact builderOk_congr (addLeaf_ok (.comment (normalizeLineEnds t.text)) h rfl rfl rfl) rfl rfl rfl
   | pi target content sp =>
-    simp only [Builder.step, Builder.processingInstruction, Step.ok.injEq] at hr
+    simp only [Builder.step] at hr
+    split at hr
+    · cases hr
+    simp only [Builder.processingInstruction, Step.ok.injEq] at hr
     subst hr
     refine builderOk_congr (addLeaf_ok (b := { b with env := (b.env.internName target.text Env.noNamespace).1 })
-      (.pi (b.env.internName target.text Env.noNamespace).2 (content.map fun c => c.text))
+      (.pi (b.env.internName target.text Env.noNamespace).2 (content.map fun c => normalizeLineEnds c.text))
       (builderOk_congr h rfl rfl rfl) rfl rfl rfl) rfl rfl rfl
   | declaration v e s sp =>
     simp only [Builder.step] at hr
